@@ -154,6 +154,12 @@ fn main() {
         "st" => stage(&sarg(0), &sarg(1), fds_at_start),
         "job" => {
             log(serde_json::json!({"h":"job","id": sarg(0), "pid": pid, "pgid": pgid, "ppid": unsafe { libc::getppid() }}));
+            extern "C" fn bye(_s: i32) {
+                unsafe { libc::_exit(3) }
+            }
+            unsafe {
+                libc::signal(libc::SIGUSR1, bye as usize);
+            }
             loop {
                 unsafe { libc::pause(); }
             }
